@@ -317,6 +317,211 @@ func sparseSpace(c *mc.Ctx) {
 	c.Require("sparse-output/twist", int64(4*len(scalars)*2))
 }
 
+// aliasSpace: every aliasing pattern of the pointer / slice arguments, an
+// in-place run of the RFC 7748 5.2 iteration, and wrong-length slices that
+// alias the exported Basepoint global.  Oracle as everywhere: the reference
+// ladder on the argument CONTENTS at call time; error iff a length is wrong or
+// the result is all zero; arguments that are not the destination are unchanged.
+func aliasSpace(c *mc.Ctx) {
+	// strings used both as scalars and as points
+	A := alphed.NewSet()
+	for _, v := range alphed.LowOrderU()[:5] {
+		A.AddInt(v)
+	}
+	A.Add(nine)
+	A.Add(rep(0xff))
+	A.AddInt(big.NewInt(2)) // twist
+	A.AddInt(new(big.Int).Add(ref.P, big.NewInt(3)))
+	for i := 0; i < c.Pick(6, 24); i++ {
+		A.Add(mc.Bytes(c.Seed, "c07-alias", i, 32))
+	}
+	str := A.Out
+	n := len(str)
+	c.Rep.Extra["alphabet_alias_strings"] = n
+	isNine := func() bool { return bytes.Equal(x25519.Basepoint, nine) }
+
+	// all ordered pairs (k, u) of the strings; the diagonal is the "same array" family
+	alphed.Par(c, "aliasing", n*n, func(w *mc.W, i int) {
+		k, u := str[i/n], str[i%n]
+		want := refx.X25519(k, u)
+		zero := refx.IsZero32(want)
+		w.Eval("aliasing", true)
+		cas := map[string]string{"scalar": hx(k), "u": hx(u), "want": hx(want)}
+		fail := func(key, pattern string, got []byte) {
+			w.Fail(key, fmt.Sprintf("%s with k=%x u=%x gave %x want %x", pattern, k, u, got, want), cas)
+		}
+		// ScalarMult: dst == in
+		ka, ua := arr(k), arr(u)
+		x25519.ScalarMult(ka, ka, ua)
+		if !bytes.Equal(ka[:], want) {
+			fail("ScalarMult/alias-dst-in", "ScalarMult(&k, &k, &u)", ka[:])
+		}
+		if !bytes.Equal(ua[:], u) {
+			w.Fail("ScalarMult/argument-modified", "ScalarMult(&k, &k, &u) modified u", cas)
+		}
+		// ScalarMult: dst == base
+		ka, ua = arr(k), arr(u)
+		x25519.ScalarMult(ua, ka, ua)
+		if !bytes.Equal(ua[:], want) {
+			fail("ScalarMult/alias-dst-base", "ScalarMult(&u, &k, &u)", ua[:])
+		}
+		if !bytes.Equal(ka[:], k) {
+			w.Fail("ScalarMult/argument-modified", "ScalarMult(&u, &k, &u) modified k", cas)
+		}
+		// no aliasing, but dst holds garbage / the scalar / the point beforehand
+		for pre, init := range [][]byte{rep(0xa5), k, u} {
+			ka, ua = arr(k), arr(u)
+			d := arr(init)
+			x25519.ScalarMult(d, ka, ua)
+			if !bytes.Equal(d[:], want) || !bytes.Equal(ka[:], k) || !bytes.Equal(ua[:], u) {
+				fail("ScalarMult/dst-prefilled", fmt.Sprintf("ScalarMult(&dst, &k, &u), dst prefilled (%d)", pre), d[:])
+			}
+		}
+		// MontgomeryPoint.Mul: receiver == point
+		ks, _ := scalar.NewFromBits(refx.Clamp(k))
+		var mp curve.MontgomeryPoint
+		copy(mp[:], u)
+		mp.Mul(&mp, ks)
+		if !bytes.Equal(mp[:], want) {
+			fail("MontgomeryPoint.Mul/alias", "p.Mul(p, clamp(k))", mp[:])
+		}
+		// slices: scalar and point are adjacent / reversed halves of one buffer; result must not disturb them
+		buf := append(append([]byte{}, k...), u...)
+		out, err := x25519.X25519(buf[:32:32], buf[32:64:64])
+		if (err != nil) != zero || (err == nil && !bytes.Equal(out, want)) {
+			fail("X25519/shared-buffer", fmt.Sprintf("X25519(buf[:32], buf[32:]) err=%v", err), out)
+		}
+		if !bytes.Equal(buf[:32], k) || !bytes.Equal(buf[32:], u) {
+			w.Fail("X25519/input-modified", "X25519 modified its shared input buffer", cas)
+		}
+		if i/n == i%n {
+			// the same array / slice for scalar and point (and destination)
+			a := k
+			w.Eval("aliasing/same-array", true)
+			x := arr(a)
+			var d [32]byte
+			x25519.ScalarMult(&d, x, x)
+			if !bytes.Equal(d[:], want) || !bytes.Equal(x[:], a) {
+				fail("ScalarMult/alias-in-base", "ScalarMult(&dst, &a, &a)", d[:])
+			}
+			x25519.ScalarMult(x, x, x)
+			if !bytes.Equal(x[:], want) {
+				fail("ScalarMult/alias-all", "ScalarMult(&a, &a, &a)", x[:])
+			}
+			sl := append([]byte{}, a...)
+			out, err := x25519.X25519(sl, sl)
+			if (err != nil) != zero || (err == nil && !bytes.Equal(out, want)) || !bytes.Equal(sl, a) {
+				fail("X25519/alias-scalar-point", fmt.Sprintf("X25519(a, a) err=%v", err), out)
+			}
+			// typed API: the public key is the private key's memory
+			priv := x25519.PrivateKey(*arr(a))
+			ss := priv.DiffieHellman((*x25519.PublicKey)(&priv))
+			if !bytes.Equal(ss[:], want) || !bytes.Equal(priv[:], a) || ss.IsZero() != zero {
+				fail("PrivateKey.DiffieHellman/alias", "priv.DiffieHellman((*PublicKey)(&priv))", ss[:])
+			}
+			// ScalarBaseMult: dst == in
+			wb := refx.X25519(a, nine)
+			x = arr(a)
+			x25519.ScalarBaseMult(x, x)
+			if !bytes.Equal(x[:], wb) {
+				w.Fail("ScalarBaseMult/alias-dst-in", fmt.Sprintf("ScalarBaseMult(&k, &k) with k=%x gave %x want %x", a, x[:], wb), cas)
+			}
+			// the scalar IS the Basepoint global's content / the point is the global, scalar a copy of it etc.
+			out, err = x25519.X25519(a, x25519.Basepoint)
+			if err != nil || !bytes.Equal(out, wb) || !isNine() {
+				w.Fail("X25519/Basepoint-slice", fmt.Sprintf("X25519(k=%x, Basepoint)=%x err=%v want %x", a, out, err, wb), cas)
+			}
+		}
+		if !isNine() {
+			w.Fail("Basepoint/modified", "the exported Basepoint global was modified", cas)
+		}
+	})
+
+	// in-place run of the RFC 7748 section 5.2 iteration: k, u = X25519(k, u), k
+	iters := c.Pick(32, 160)
+	starts := [][]byte{nine, mc.Bytes(c.Seed, "c07-iter", 0, 32), rep(0xff)}
+	alphed.Par(c, "in-place-iteration", len(starts)*3, func(w *mc.W, i int) {
+		start, variant := starts[i/3], i%3
+		rk, ru := append([]byte{}, start...), append([]byte{}, start...)
+		k, u := arr(start), arr(start)
+		for it := 1; it <= iters; it++ {
+			r := refx.X25519(rk, ru)
+			ru, rk = rk, r
+			switch variant {
+			case 0: // result written over the point, then the roles are swapped
+				x25519.ScalarMult(u, k, u)
+				k, u = u, k
+			case 1: // result written over the scalar, the old scalar saved by value
+				old := *k
+				x25519.ScalarMult(k, k, u)
+				*u = old
+			case 2: // the slice API on slices of the two arrays, copied back in place
+				out, err := x25519.X25519(k[:], u[:])
+				if err != nil {
+					w.Fail("X25519/iteration-error", fmt.Sprintf("iteration %d from %x: %v", it, start, err), nil)
+					return
+				}
+				copy(u[:], k[:])
+				copy(k[:], out)
+			}
+			w.Eval("in-place-iteration", true)
+			if !bytes.Equal(k[:], rk) || !bytes.Equal(u[:], ru) {
+				w.Fail(fmt.Sprintf("ScalarMult/in-place-iteration-variant%d", variant), fmt.Sprintf("in-place iteration %d from k=u=%x (variant %d): k=%x u=%x want k=%x u=%x", it, start, variant, k[:], u[:], rk, ru), map[string]string{"start": hx(start), "iteration": fmt.Sprint(it)})
+				return
+			}
+		}
+	})
+
+	// slices that alias the exported global Basepoint (and a private buffer) with every length
+	type sl struct {
+		name string
+		mk   func(buf []byte) []byte
+	}
+	var shapes []sl
+	for k := 0; k <= 32; k++ {
+		k := k
+		shapes = append(shapes, sl{fmt.Sprintf("[:%d]", k), func(b []byte) []byte { return b[:k] }})
+		shapes = append(shapes, sl{fmt.Sprintf("[:%d:%d]", k, k), func(b []byte) []byte { return b[:k:k] }})
+		shapes = append(shapes, sl{fmt.Sprintf("[%d:]", k), func(b []byte) []byte { return b[k:] }})
+	}
+	shapes = append(shapes, sl{"[1:32:32]", func(b []byte) []byte { return b[1:32:32] }}, sl{"[0:1:1]", func(b []byte) []byte { return b[0:1:1] }},
+		sl{"[16:]", func(b []byte) []byte { return b[16:] }}, sl{"copy", func(b []byte) []byte { return append([]byte{}, b...) }})
+	other := mc.Bytes(c.Seed, "c07-alias-other", 0, 32)
+	alphed.Par(c, "global-alias-lengths", len(shapes)*4, func(w *mc.W, i int) {
+		sh, mode := shapes[i/4], i%4
+		private := append([]byte{}, nine...) // same contents as the global, different memory
+		var s, u []byte
+		switch mode {
+		case 0: // point is a slice of the global
+			s, u = other, sh.mk(x25519.Basepoint)
+		case 1: // point is the same slice shape of a private copy
+			s, u = other, sh.mk(private)
+		case 2: // scalar is a slice of the global, generic point
+			s, u = sh.mk(x25519.Basepoint), other
+		case 3: // scalar is a slice of the global and the point is the global itself
+			s, u = sh.mk(x25519.Basepoint), x25519.Basepoint
+		}
+		okLen := len(s) == 32 && len(u) == 32
+		wantErr := !okLen
+		var want []byte
+		if okLen {
+			want = refx.X25519(s, u)
+			wantErr = refx.IsZero32(want)
+		}
+		w.Eval(fmt.Sprintf("global-alias-lengths/ok=%v", okLen), !okLen)
+		out, err := x25519.X25519(s, u)
+		desc := fmt.Sprintf("mode %d, slice shape %s (scalar %d bytes, point %d bytes)", mode, sh.name, len(s), len(u))
+		if (err != nil) != wantErr {
+			w.Fail("X25519/length-global-alias", fmt.Sprintf("X25519 with %s: out=%x err=%v, expected error=%v", desc, out, err, wantErr), map[string]string{"shape": sh.name, "mode": fmt.Sprint(mode)})
+		} else if err == nil && !bytes.Equal(out, want) {
+			w.Fail("X25519/value-global-alias", fmt.Sprintf("X25519 with %s = %x want %x", desc, out, want), map[string]string{"shape": sh.name, "mode": fmt.Sprint(mode)})
+		}
+		if !isNine() || !bytes.Equal(private, nine) {
+			w.Fail("Basepoint/modified", "the Basepoint global (or the private copy) was modified", nil)
+		}
+	})
+}
+
 func run(c *mc.Ctx) {
 	U := alphed.UCoordsSized(c.Seed, c.Pick(10, 40), int64(c.Pick(8, 40)))
 	S := scalarStrings(c.Seed, true, c.Pick(3, 40), c.Thorough)
@@ -539,6 +744,9 @@ func run(c *mc.Ctx) {
 			w.Fail("PrivateKey.DiffieHellman/symmetry", fmt.Sprintf("typed DH of a=%x b=%x: %x vs %x want %x", a, b, s1[:], s2[:], want), cas)
 		}
 	})
+
+	// ---------------------------------------------------------------- argument aliasing, in-place iteration, slices of the exported global
+	aliasSpace(c)
 
 	// ---------------------------------------------------------------- lengths
 	longS := mc.Bytes(c.Seed, "c07-len-scalar", 0, 70)
